@@ -12,7 +12,8 @@ RULES = {
              "not fail is one of: Staking with the caller's stored permissions present and the matching flag true; "
              "Distribution likewise; Bank::Send with a spend on ALLOWANCES[info.sender] of that message's coins; no other "
              "message kind has a successful iteration",
-    "R07.5": "the grants the relay relies on change only through the guarded handlers (shared with C08 R08.4 / R08.7 and C17 R17.4): "
+    "R07.5": "the grants the relay relies on change only through the guarded handlers, and an allowance's expiry changes only to a requested, "
+             "unexpired one - a top-up never clears it (shared with C08 R08.4 / R08.5 / R08.7 and C17 R17.4): "
              "no other entry point rewrites ALLOWANCES / PERMISSIONS, so an allowance's expiry and balance are the ones admins set",
     "R07.4": "flag mapping: Delegate=>delegate, Undelegate=>undelegate, Redelegate=>redelegate, "
              "SetWithdrawAddress=>withdraw, WithdrawDelegatorReward=>withdraw; any other staking/distribution kind has no Ok-path",
@@ -82,7 +83,7 @@ def run(ctx):
     C08.run(sub)
     for k in sub.order:
         o = sub.obs[k]
-        if o.rule in ("R08.4", "R08.7") and not o.key.startswith(("anchor", "floor")):
+        if o.rule in ("R08.4", "R08.5", "R08.7") and not o.key.startswith(("anchor", "floor")):
             ctx.ob("R07.5", o.key, True if o.status == "discharged" else (None if o.status == "undecided" else False),
                    detail="; ".join(o.details), sites=o.sites, sample=o.sample)
     ctx.floor("R07.1", "relaying Ok-paths", relays, 3)
